@@ -39,6 +39,9 @@ DEFECTS = [
     ('duplicate-builtin', ["def string EXACTLY_ACT = 'x'"], ('VALIDATION_ERROR',)),
     ('wrong-type-rel', ["def string STR = 'v'", "file -rel STR out.txt = 'x'"], ('VALIDATION_ERROR',)),
     ('wrong-type-matcher', ["def string STR2 = 'v'", "def text-matcher TM = STR2 && is-empty"], ('VALIDATION_ERROR',)),
+    ('wrong-type-indirect-sibling', ['def string A0 = 7', 'def list L0 = x y', 'def string SIB = @[A0]@@[L0]@', 'timeout = @[SIB]@'], ('VALIDATION_ERROR',)),
+    ('wrong-type-indirect-sibling-path', ['def string A1 = a', 'def path P0 = -rel-act p', 'def string SIB2 = "@[A1]@-@[A1]@@[P0]@"', "file -rel-act f-@[SIB2]@.txt = 'x'"], ('VALIDATION_ERROR',)),
+    ('wrong-type-indirect-2-levels', ['def list L1 = x', 'def string M1 = "@[L1]@"', 'def string M2 = "a@[M1]@"', 'run % @[M2]@'], ('VALIDATION_ERROR',)),
     ('illegal-relativity-1', ['def path P1 = -rel-home x', "file -rel P1 z.txt = 'x'"], ('VALIDATION_ERROR',)),
     ('illegal-relativity-2', ['def path Q1 = -rel-result x', 'def path Q2 = -rel Q1 y', "file @[Q2]@/z = 'x'"], ('VALIDATION_ERROR',)),
     ('missing-home-file-contents', ['file g.txt = -contents-of -rel-home no-such-file'], ('VALIDATION_ERROR',)),
